@@ -227,7 +227,9 @@ func genCrowd(t *rapid.T, c *Case, i int) {
 		// nobody cancels and the pool's own fault waits for the end of its work, which now never comes
 		c.Cancel = "during"
 	}
-	if c.Cancel == "during" {
+	if c.Cancel != "" {
+		// (a cancel before the run would leave the crowd unborn)
+		c.Cancel = "during"
 		c.CancelAfterUs = rapid.SampledFrom([]int{1000, 3000, 10000, 30000, 100000, 300000}).Draw(t, "crowdCancelAfterUs")
 	}
 	if rapid.Bool().Draw(t, "crowdLog") {
@@ -243,9 +245,9 @@ func genCase(t *rapid.T) Case {
 	n := rapid.SampledFrom([]int{1, 1, 1, 2, 3}).Draw(t, "pools")
 	mode := rapid.SampledFrom([]string{"fault", "fault", "fault", "cancel", "both", "none"}).Draw(t, "mode")
 	faultyPool := rapid.IntRange(0, n-1).Draw(t, "faultyPool")
-	// one case in thirty has a crowded pool (rapid prefers the ends of a range)
+	// one case in twenty has a crowded pool (rapid prefers the ends of a range)
 	crowdPool := -1
-	if rapid.IntRange(0, 29).Draw(t, "crowd") == 17 {
+	if rapid.IntRange(0, 19).Draw(t, "crowd") == 11 {
 		crowdPool = rapid.IntRange(0, n-1).Draw(t, "crowdPool")
 	}
 	for i := 0; i < n; i++ {
